@@ -680,7 +680,7 @@ def check_index_space(prog, rep, fs, entry_of):
                 if isinstance(t_, Func) and t_.module is g.module and t_ is not g and sorts(t_, depth + 1):
                     return True
             return False
-        if rets and sorts(f) and not stride_calls and any(short(c) == 'argsort' for c in calls(f.node)) and \
+        if rets and len(rets[-1].value.elts) >= 3 and sorts(f) and not stride_calls and \
                 not any(isinstance(prog.resolve_callable(f, f.module, c.func), Func) and
                         ids_param(prog, prog.resolve_callable(f, f.module, c.func)) is not None for c in calls(f.node) if c in f.own_nodes()):
             # the routine sorts the cells and hands back a tuple, but the segment offsets do not come from the stride routine
